@@ -4773,12 +4773,18 @@ int64_t ExpressionEvaluator::evaluate_function_call_impl(const ASTNode *node) {
             interpreter_.current_function_name = node->name;
             callee_frame_parked = false;
         };
+        // From here on name lookups happen inside the callee: its static
+        // locals take precedence over the locals of its callers.
+        auto enter_callee_frame = [&]() {
+            restore_callee_frame();
+            interpreter_.current_scope().is_call_frame = true;
+        };
 
         for (size_t i = 0; i < num_params; i++) {
             if (i < num_args) {
                 park_callee_frame();
             } else {
-                restore_callee_frame();
+                enter_callee_frame();
             }
 
             const auto &param_orig = func->parameters[i];
@@ -5781,7 +5787,7 @@ int64_t ExpressionEvaluator::evaluate_function_call_impl(const ASTNode *node) {
             }
         }
 
-        restore_callee_frame();
+        enter_callee_frame();
 
         // implメソッド呼び出しの場合、implコンテキストを設定
         if (is_method_call && !receiver_name.empty()) {
